@@ -45,8 +45,18 @@ eps, posinf, neginf, smallest, largest, smallest_subnormal, pi, undefined, nan
 
 def normalize_like(expr):
     while True:
-        if expr.kind in {"constant", "select"}:
+        if expr.kind == "constant":
             expr = expr.operands[1]
+        elif expr.kind == "select":
+            # the branch that carries the type of the select (the branches may differ in width)
+            try:
+                typ = expr.get_type()
+                same = [o for o in expr.operands[1:] if o.get_type().is_same(typ)]
+            except NotImplementedError:
+                same = [expr.operands[1]]
+            if not same:
+                break
+            expr = same[0]
         elif expr.kind in {
             "negative",
             "positive",
@@ -96,10 +106,14 @@ def normalize_like(expr):
                 expr = expr.operands[0]
         elif expr.kind == "absolute" and not expr.operands[0].is_complex:
             expr = expr.operands[0]
-        elif expr.kind == "real" and expr.operands[0].kind == "complex":
-            expr = expr.operands[0].operands[0]
-        elif expr.kind == "imag" and expr.operands[0].kind == "complex":
-            expr = expr.operands[0].operands[1]
+        elif expr.kind in {"real", "imag"} and expr.operands[0].kind == "complex":
+            part = expr.operands[0].operands[0 if expr.kind == "real" else 1]
+            try:
+                if not part.get_type().is_same(expr.get_type()):
+                    break  # complex(x32, y64): the component is narrower than the part of the complex value
+            except NotImplementedError:
+                pass
+            expr = part
         else:
             break
     return expr
